@@ -65,6 +65,7 @@ class EnvModel:
                 ds.add(r.start)
             if r.end.year < 9999:
                 ds.add(r.end + datetime.timedelta(days=1))
+        ds |= self.framework_dates()
         for d in list(ds):
             try:
                 ds.add(d.replace(year=d.year + 1))
@@ -76,6 +77,24 @@ class EnvModel:
         ds |= {datetime.date(y, 1, 1) for y in range(max(lo, 1900), hi + 2)}
         # leap days look one day earlier for `vorjahr`
         return sorted(ds)
+
+    def framework_dates(self):
+        """date literals hidden in the set-up code (datetime.date(y, m, d) / date(y, m, d) with
+        integer literals): they and the following day are change dates too"""
+        import ast
+
+        out = set()
+        pe = self.repo.module("policy_environment.py")
+        for n in ast.walk(pe.tree):
+            if isinstance(n, ast.Call) and ast.unparse(n.func) in ("datetime.date", "date", "datetime.datetime"):
+                vals = [a.value for a in n.args if isinstance(a, ast.Constant) and isinstance(a.value, int)]
+                kw = {k.arg: k.value.value for k in n.keywords if isinstance(k.value, ast.Constant)}
+                try:
+                    d = datetime.date(*vals[:3], **{k: v for k, v in kw.items() if k in ("year", "month", "day")})
+                except Exception:  # noqa: BLE001
+                    continue
+                out |= {d, d + datetime.timedelta(days=1)}
+        return out
 
     def intervals(self, start, end=None):
         """[(first_day, last_day)] of equivalence intervals intersecting [start, end]"""
